@@ -54,10 +54,10 @@ def programs_a(tier: str) -> List[tuple]:
     return progs
 
 
-def observe_a(program: tuple, restore_at: tuple, medium: str) -> Tuple[Any, List[str]]:
+def observe_a(program: tuple, restore_at: tuple, medium: str, foreign_loop: bool = False) -> Tuple[Any, List[str]]:
     from .c07 import InBase  # declared inputs with defaults, which the steps read (recorded in the trace)
     cls = programs.make_class(program, InBase)
-    world = ckpt.CkptWorld(restore_at, list(RESUMES), medium)
+    world = ckpt.CkptWorld(restore_at, list(RESUMES), medium, foreign_loop=foreign_loop)
     try:
         proc = world.run(cls)
         obs = (outcome(proc), repr(sorted(proc.outputs.items())), tuple(proc._trace),
@@ -96,6 +96,24 @@ def check_a(program: tuple, max_m: int, media: Tuple[str, ...]) -> Dict[str, Any
                         next(i for i in range(4) if got[i] != ref[i])]
                     out['violations'].append({'clause': f'differs:{what}', 'features': {'part': 'A', 'n_restores': len(subset)},
                                               'detail': {'got': got, 'reference': ref}, 'case': case})
+    # every single boundary once more, the checkpoint being loaded while another loop is the current one
+    for boundary in range(0, nb + 1):
+        out['n'] += 1
+        case = {'part': 'A', 'program': program, 'restore_at': (boundary,), 'medium': media[0], 'foreign_loop': True}
+        feats = {'part': 'A', 'foreign_loop': True}
+        try:
+            got, errors, _, restores = observe_a(program, (boundary,), media[0], foreign_loop=True)
+            out['restores'] += restores
+        except Exception as exc:  # noqa: BLE001
+            out['violations'].append({'clause': 'restore-raised', 'features': dict(feats, exc=type(exc).__name__),
+                                      'detail': repr(exc), 'case': case})
+            continue
+        if errors:
+            out['violations'].append({'clause': 'stuck-after-restore', 'features': feats, 'detail': errors, 'case': case})
+        elif got != ref:
+            what = ['outcome', 'outputs', 'persisted-trace', 'executed-steps'][next(i for i in range(4) if got[i] != ref[i])]
+            out['violations'].append({'clause': f'differs:{what}', 'features': dict(feats, n_restores=1),
+                                      'detail': {'got': got, 'reference': ref}, 'case': case})
     return out
 
 
